@@ -129,10 +129,15 @@ func (d *dumpStruct) loopHandleKV(s reflect.StructField, tv reflect.Value, isNee
 		mapLen := tv.Len()
 		tmpIndex := 0
 		for mapObj.Next() {
-			// 把 key 处理成字符串
-			d.buf.WriteByte('"')
+			// 把 key 处理成字符串 (string 类型的 key 在 loopHandleKV 里已经带引号)
+			keyIsStr := mapObj.Key().Kind() == reflect.String
+			if !keyIsStr {
+				d.buf.WriteByte('"')
+			}
 			d.loopHandleKV(d.nullStructFiled, mapObj.Key(), false)
-			d.buf.WriteByte('"')
+			if !keyIsStr {
+				d.buf.WriteByte('"')
+			}
 			d.buf.WriteString(":")
 			d.loopHandleKV(d.nullStructFiled, mapObj.Value(), false)
 			if tmpIndex < mapLen-1 {
